@@ -79,6 +79,10 @@ impl DocAt {
     #[verifier::external_body]
     pub fn is_public(&self) -> (r: bool) ensures r ==> forall|d: Did| visible(self.rid, d) { unimplemented!() }
 }
+/// ASSUMED (core): Result::is_ok_and(f) is `match self { Ok(x) => f(x), Err(_) => false }`
+pub assume_specification<T, E, F: FnOnce(T) -> bool>[Result::<T, E>::is_ok_and](r: Result<T, E>, f: F) -> (b: bool)
+    requires r is Ok ==> f.requires((r->Ok_0,))
+    ensures b ==> r is Ok && f.ensures((r->Ok_0,), true), !b && r is Ok ==> f.ensures((r->Ok_0,), false);
 pub struct Repository { pub rid: RepoId }
 impl Repository {
     /// ASSUMED: identity_doc() returns the current identity document of this repository or an error.
